@@ -373,13 +373,21 @@ def leanchecker(report, modules):
 
 
 def main(run_fn, pid):
-    tier = os.environ.get("VERIF_TIER") or (sys.argv[1] if len(sys.argv) > 1 else "quick")
+    # the tier named on the command line wins; VERIF_TIER is the fallback
+    tier = sys.argv[1] if len(sys.argv) > 1 and sys.argv[1] in ("quick", "thorough") else os.environ.get("VERIF_TIER", "quick")
     if tier not in ("quick", "thorough"):
         tier = "quick"
     seed = int(os.environ.get("VERIF_SEED", "0") or 0)
     replay = None
     if "--replay" in sys.argv:
         replay = sys.argv[sys.argv.index("--replay") + 1]
+        # a replay file records the seed and tier of the run that produced it: re-run exactly that
+        try:
+            rj = json.load(open(replay if os.path.isabs(replay) else os.path.join(VERIF, replay)))
+            seed = int(rj.get("seed", seed))
+            tier = rj.get("tier", tier) if rj.get("tier") in ("quick", "thorough") else tier
+        except Exception as e:        # noqa
+            log("replay file not readable:", e)
     try:
         rc = run_fn(tier, seed, replay)
     except ToolFailure as e:
